@@ -109,3 +109,9 @@ def register3(V):
     V('c17-decrypt-subtracts', 'C17', 'break', [(F, "    s = nacl.bindings.crypto_core_ed25519_scalar_add(sa, t) # s = sa + t", "    s = nacl.bindings.crypto_core_ed25519_scalar_sub(sa, t) # s = sa + t")], 'C17.R2')
     V('c17-decrypt-nonce-without-tweak', 'C17', 'break', [(F, "    T = derive_point_from_scalar(t)\n    RT = aggregate_points((R, T)) # R + T\n    s = ", "    T = derive_point_from_scalar(t)\n    RT = aggregate_points((R, R)) # R + T\n    s = ")], 'C17.R2')
     V('c17-p-local-alias', 'C17', 'preserve', [(F, "    RT = aggregate_points((R, T)) # R + T\n    ca = clamp_scalar(H_small(RT, X, m)) # H(R + T || X || m)\n    caX = ", "    nonce_sum = aggregate_points((R, T)) # R + T\n    RT = nonce_sum\n    ca = clamp_scalar(H_small(RT, X, m)) # H(R + T || X || m)\n    caX = ")])
+
+
+def register4(V):
+    V('c08-p-update-literal', 'C08', 'preserve', [(F, "    cache[b'P'] = [stack.get()]\n", "    cache.update({b'P': [stack.get()]})\n")])
+    V('c08-update-str-literal', 'C08', 'break', [(F, "    cache[b'P'] = [stack.get()]\n", "    cache.update({'P': [stack.get()]})\n")], 'C08.R1')
+    V('c08-update-unknown-dict', 'C08', 'break', [(F, "    cache[b'P'] = [stack.get()]\n", "    cache.update(dict(P=[stack.get()]))\n")], 'C08.R1')
